@@ -101,7 +101,7 @@ def preorder(c, typ, seen=None):
     return res
 
 
-def invariant(objs, extra=()):
+def invariant(objs, extra=(), check_describe=True):
     import magpylib as magpy
     from magpylib._src.obj_classes.class_BaseExcitations import BaseSource
 
@@ -155,6 +155,8 @@ def invariant(objs, extra=()):
                     # public views are the private lists
                     if o.children is not o._children or o.sources is not o._sources:
                         pass
+                    if not check_describe:
+                        continue
                     desc = o.describe(format="label", return_string=True).split("\n")[1:]
                     labs = [ln.lstrip("│├└─  ") for ln in desc]
                     exp = [x.style.label for x in preorder(o, (BaseSource, magpy.Sensor, magpy.Collection))]
